@@ -412,6 +412,7 @@ func (g *vfGen) genIsX() {
 			v := n[:i] + fold[n[i]] + n[i+1:]
 			g.emit(vfOp("isx", []byte(n), []byte(v)))
 			g.emit(vfOp("eqanyx", []byte(v), []byte(n)))
+			g.emit(vfOp("parse", []byte(v+"; a=\"b\"")))
 			if g.intn(2) == 0 {
 				g.emit(vfOp("isx", []byte(n), []byte(v+"; charset=utf-8")))
 				g.emit(vfOp("isx", []byte(n), []byte(strings.ToUpper(v))))
@@ -424,6 +425,16 @@ func (g *vfGen) genIsX() {
 		g.emit(vfOp("eqanyx", []byte(n), []byte(long)))
 		g.emit(vfOp("isx", []byte(n), []byte(strings.Repeat(" ", 100+g.intn(300))+n+strings.Repeat("\t", g.intn(300)))))
 		g.emit(vfOp("isx", []byte(n), []byte(n+"\u00a0")))
+		// Unicode white space (and look-alikes that are not) around the type and after `;`, invalid UTF-8
+		for _, w := range []string{"\u00a0", "\u0085", "\u2028", "\u3000", "\u200b", "\ufeff", "\u180e", "\xa0", "\xff", "\xc2", "\xe2\x84"} {
+			if g.intn(4) == 0 {
+				g.emit(vfOp("isx", []byte(n), []byte(w+n)))
+				g.emit(vfOp("isx", []byte(n), []byte(n+w+"; q=1")))
+				g.emit(vfOp("parse", []byte(n+";"+w+"a=b")))
+				g.emit(vfOp("parse", []byte(n+w)))
+				g.emit(vfOp("eqanyx", []byte(w+n), []byte(n+w)))
+			}
+		}
 		g.emit(vfOp("isx", []byte(n), []byte(n+"; x=\"\u00e9\"")))
 	}
 }
